@@ -1,9 +1,13 @@
 package hashing
 
 import (
+	"encoding/binary"
 	"fmt"
 	"grog/internal/config"
 	"grog/internal/model"
+	"io"
+	"os"
+	"path/filepath"
 	"slices"
 	"strings"
 )
@@ -20,48 +24,116 @@ func GetTargetChangeHash(target model.Target, dependencyHashes []string) (string
 		return targetDefinitionHash, nil
 	}
 
-	inputContentHash, err := HashFiles(absolutePackagePath, target.Inputs)
+	inputContentHash, err := hashInputFiles(absolutePackagePath, target.Inputs)
 	if err != nil {
 		return "", fmt.Errorf("failed hashing input files %s for target %s: %w", strings.Join(target.Inputs, ","), target.Label, err)
 	}
 	return fmt.Sprintf("%s_%s", targetDefinitionHash, inputContentHash), err
 }
 
-// hashTargetDefinition computes the configured hash of a single file.
+// hashTargetDefinition computes the hash of everything in the target definition that
+// determines its result. Every component is written with a fixed-width length header
+// (and every list with its element count) so that no two different definitions can
+// produce the same byte stream, e.g. by moving bytes from the end of the command to
+// the start of the first input or by using the list separator inside an element.
 func hashTargetDefinition(target model.Target, dependencyHashes []string) (string, error) {
 	hasher := GetHasher()
 
-	_, err := hasher.WriteString(target.Label.String())
-	_, err = hasher.WriteString(target.Command)
-	_, err = hasher.WriteString(sorted(target.Inputs))
-	_, err = hasher.WriteString(sorted(target.OutputDefinitions()))
-	_, err = hasher.WriteString(sorted(dependencyHashes))
-	_, err = hasher.WriteString(sortedKeyValue(target.Fingerprint))
+	writeFramed(hasher, target.Label.String())
+	writeFramed(hasher, target.Command)
+	writeFramedList(hasher, sortedUnique(target.Inputs))
+	writeFramedList(hasher, sortedStrings(target.OutputDefinitions()))
+	writeFramedList(hasher, sortedStrings(dependencyHashes))
+	writeFramedKeyValues(hasher, target.Fingerprint)
 	if !target.IsMultiplatformCache() {
-		_, err = hasher.WriteString(config.Global.GetPlatform())
+		writeFramed(hasher, config.Global.GetPlatform())
 	}
 
-	if err != nil {
-		return "", err
-	}
 	// Return the hash as a hexadecimal string.
 	return hasher.SumString(), nil
 }
 
-func sorted(s []string) string {
-	slices.Sort(s)
-	return strings.Join(s, ",")
+// hashInputFiles computes a combined hash of the contents of the given input files
+// (relative to absolutePackagePath) in sorted order. Each file contributes a presence
+// byte followed by its length-framed content so that bytes cannot move between
+// adjacent files and a missing file differs from an empty one.
+func hashInputFiles(absolutePackagePath string, fileList []string) (string, error) {
+	hasher := GetHasher()
+
+	for _, file := range sortedUnique(fileList) {
+		fullPath := filepath.Join(absolutePackagePath, file)
+		f, err := os.Open(fullPath)
+		if err != nil {
+			if os.IsNotExist(err) {
+				// NOTE: If a file does not exist in the package, we only record its absence.
+				_, _ = hasher.Write([]byte{0})
+				continue
+			}
+			return "", fmt.Errorf("failed opening input file for hashing: %w", err)
+		}
+
+		info, err := f.Stat()
+		if err != nil {
+			f.Close()
+			return "", fmt.Errorf("failed to stat input file for hashing: %w", err)
+		}
+		_, _ = hasher.Write([]byte{1})
+		writeLength(hasher, uint64(info.Size()))
+		written, err := io.Copy(hasher, f)
+		f.Close()
+		if err != nil {
+			return "", err
+		}
+		if written != info.Size() {
+			return "", fmt.Errorf("input file %s changed while it was being hashed", fullPath)
+		}
+	}
+
+	return hasher.SumString(), nil
 }
 
-func sortedKeyValue(m map[string]string) string {
-	if len(m) == 0 {
-		return ""
-	}
+func writeLength(hasher Hasher, length uint64) {
+	var header [8]byte
+	binary.BigEndian.PutUint64(header[:], length)
+	_, _ = hasher.Write(header[:])
+}
 
-	entries := make([]string, 0, len(m))
-	for k, v := range m {
-		entries = append(entries, fmt.Sprintf("%s=%s", k, v))
-	}
+// writeFramed writes s preceded by its length.
+func writeFramed(hasher Hasher, s string) {
+	writeLength(hasher, uint64(len(s)))
+	_, _ = hasher.WriteString(s)
+}
 
-	return sorted(entries)
+// writeFramedList writes the number of items followed by every item framed.
+func writeFramedList(hasher Hasher, items []string) {
+	writeLength(hasher, uint64(len(items)))
+	for _, item := range items {
+		writeFramed(hasher, item)
+	}
+}
+
+// writeFramedKeyValues writes the map entries ordered by key, keys and values framed separately.
+func writeFramedKeyValues(hasher Hasher, m map[string]string) {
+	keys := make([]string, 0, len(m))
+	for k := range m {
+		keys = append(keys, k)
+	}
+	slices.Sort(keys)
+
+	writeLength(hasher, uint64(len(keys)))
+	for _, k := range keys {
+		writeFramed(hasher, k)
+		writeFramed(hasher, m[k])
+	}
+}
+
+func sortedStrings(s []string) []string {
+	slices.Sort(s)
+	return s
+}
+
+// sortedUnique returns the sorted elements of s without duplicates (s itself is sorted in place).
+func sortedUnique(s []string) []string {
+	slices.Sort(s)
+	return slices.Compact(slices.Clone(s))
 }
